@@ -200,6 +200,10 @@ func ZZ_C24() {
 		if retired[k] {
 			vr.Assert(!have, "retired-proposal-aggregator-removed")
 			vr.Assert(chain.CosiVerifiers[p.snap.Hash] == nil, "retired-proposal-verifier-removed")
+			for _, t := range p.snap.Transactions {
+				// a stale per-transaction entry would make the next proposal of t defer to a dead owner
+				vr.Assert(chain.CosiVerifiers[t] != p.verifier, "retired-proposal-transaction-entries-removed")
+			}
 		} else {
 			vr.Assert(have, "active-proposal-aggregator-kept")
 			vr.Assert(chain.CosiVerifiers[p.snap.Hash] == p.verifier, "active-proposal-verifier-kept")
